@@ -199,6 +199,29 @@ func c12History(c *rt.Ctx, fsType string, h int) {
 			c.Disagree(fmt.Sprintf("consultation-missing|%s|%s", o.K, want), fmt.Sprintf("FailFS(%s): %s reached the base without consulting the failure function with %s", fsType, o, want), replay("ok", i))
 		}
 	}
+	// a composite that succeeded must have shown the primitives it is built on to the failure function (otherwise no plan
+	// can make it "fail when a primitive it is built on is made to fail"); names as in avfs.FnVFS
+	built := map[string][]string{"Create": {"OpenFile"}, "WriteFile": {"OpenFile", "FileWrite", "FileClose"}, "ReadFile": {"OpenFile", "FileRead"},
+		"ReadDir": {"OpenFile", "FileReadDir"}, "MkdirTemp": {"Mkdir"}}
+	for i, o := range ops {
+		if unfailed[i].Err != "ok" {
+			continue
+		}
+		for _, want := range built[o.K] {
+			if want == "FileWrite" && o.Data == "" {
+				continue
+			}
+			found := false
+			for _, cs := range consults {
+				if cs.call == i && cs.fn == want {
+					found = true
+				}
+			}
+			if !found {
+				c.Disagree(fmt.Sprintf("composite-hides-primitive|%s|%s", o.K, want), fmt.Sprintf("FailFS(%s): the composite %s succeeded without showing its primitive %s to the failure function: no plan can make it fail there", fsType, o, want), replay("ok", i))
+			}
+		}
+	}
 	// ---- (b) every single-fault plan "fail the k-th consultation" ----
 	for k := range consults {
 		base, _ := c12Setup(fsType, sa, sb)
@@ -351,7 +374,7 @@ func init() {
 		Shards: shards(8, 16),
 		Meta: func(tier string) rt.Meta {
 			return rt.Meta{Level: "fault_enumeration", MinEvals: 2000, MinDistinct: 30, Exhaustive: true,
-				Rule:        "per history of 12-25 calls over all VFS and File methods on a random tree (MemFS, OrefaFS bases): (a) always-OK function: results and base snapshot equal to a twin base driven directly, and every direct primitive consults the callback with its own FnVFS id; (b) EVERY single-fault plan 'fail the k-th consultation' (exhaustive per history): the enclosing call must return an error - exactly the injected value for a direct primitive, none for Glob - and the base snapshot taken inside the callback at the moment of injection must equal the snapshot when the call returns; (c) 'fail every consultation of F' for every F seen: every call of that kind, including calls on files and sub file systems handed out by the FailFS, must return the injected error and leave the base untouched; (d) ReadOnlyFunc: the base (incl. mtimes) never changes. Signature = plan kind | base fs | call kind | injected primitive | outcome; all non-trivial.",
+				Rule:        "per history of 12-25 calls over all VFS and File methods on a random tree (MemFS, OrefaFS bases): (a) always-OK function: results and base snapshot equal to a twin base driven directly, and every direct primitive consults the callback with its own FnVFS id, every successful composite (Create, WriteFile, ReadFile, ReadDir, MkdirTemp) shows the primitives it is built on; (b) EVERY single-fault plan 'fail the k-th consultation' (exhaustive per history): the enclosing call must return an error - exactly the injected value for a direct primitive, none for Glob - and the base snapshot taken inside the callback at the moment of injection must equal the snapshot when the call returns; (c) 'fail every consultation of F' for every F seen: every call of that kind, including calls on files and sub file systems handed out by the FailFS, must return the injected error and leave the base untouched; (d) ReadOnlyFunc: the base (incl. mtimes) never changes. Signature = plan kind | base fs | call kind | injected primitive | outcome; all non-trivial.",
 				Assumptions: []string{"the injected error is neither exist- nor not-exist-class, so retry loops surface it"}}
 		},
 		Run: func(c *rt.Ctx) {
